@@ -19,8 +19,13 @@ def _u2b(ctx) -> None:
     rule_U2b(ctx)       # a record that is not converted (wire type of another schema) must not select / set any member
 
 
+def _v10(ctx) -> None:
+    from .c14 import rule_V10
+    rule_V10(ctx)       # dump skips what equals its default: equality has to be decided on the fields, not on presence flags
+
+
 def run(ctx) -> None:
-    for name, fn in (("D1", presence.rule_D1), ("D2", presence.rule_D2), ("D3", presence.rule_D3), ("D4", presence.rule_D4), ("D5", presence.rule_D5), ("T5", codec.rule_T5), ("V7", presence.rule_V7), ("D6", presence.rule_D6), ("D7", presence.rule_D7), ("D8", presence.rule_D8), ("O2", presence.rule_O2), ("U2b", _u2b)):
+    for name, fn in (("D1", presence.rule_D1), ("D2", presence.rule_D2), ("D3", presence.rule_D3), ("D4", presence.rule_D4), ("D5", presence.rule_D5), ("T5", codec.rule_T5), ("V7", presence.rule_V7), ("D6", presence.rule_D6), ("D7", presence.rule_D7), ("D8", presence.rule_D8), ("O2", presence.rule_O2), ("U2b", _u2b), ("V10", _v10)):
         ctx.rules_run.append(name)
         fn(ctx)
     ctx.oracle("proto3 field presence table (embedded): implicit fields skip the default; optional / oneof / wrapper / message presence is explicit")
